@@ -177,9 +177,9 @@ func (h *HTTP) request(ctx *gin.Context) {
 	//       on the redirector setup
 
 	for _, Header := range h.Config.Response.Headers {
-		var hdr = strings.Split(Header, ":")
+		var hdr = strings.SplitN(Header, ":", 2)
 		if len(hdr) > 1 {
-			ctx.Header(hdr[0], hdr[1])
+			ctx.Header(strings.TrimSpace(hdr[0]), strings.TrimSpace(hdr[1]))
 		}
 	}
 
